@@ -6,7 +6,7 @@ import queuecore as qc
 PROP = 'C02'
 REQUIRES = ['Queue.Model', 'Queue.Spec']
 RULE = ('all seven queue classes x stimulus sets (1-4 stimuli; array / FixedWaveform / Cos2-gated-tone sources; lengths 0..12; trials 1..4; '
-        'delays 0..5 samples, scalar or per-trial lists) x rates {1000, 25000, 97656.25, 195312.5} x start offsets {0, k/fs}; request sequences: '
+        'delays 0..5 samples, scalar or per-trial lists) x rates {1000, 25000, 97656.25, 195312.5} x start offsets {0, k/fs, off-grid (k+0.34)/fs}; request sequences: '
         'every composition of totals <= 7 (quick: for 3 configs; thorough: 12), requests ending exactly at / one before / one after every '
         'waveform and delay boundary, then seeded random. No pause. Non-trivial: at least two requests and two trials generated.')
 TRUSTED = ['harness/queuecore.py (queue builder, uuid->index mapping, event recorder, decoder)',
@@ -55,7 +55,7 @@ def cases(tier, rng):
     while len(confs) < nconf:
         confs.append({'pol': rng.choice(qc.POLICIES), 'gs': rng.randint(1, 3), 'stims': _stimsets(rng, 1)[0]})
     for c in confs:
-        c = dict(c, fs=rng.choice(FS), t0=rng.choice([0, 17]), seed=rng.randint(0, 50))
+        c = dict(c, fs=rng.choice(FS), t0=rng.choice([0, 17, 12.34]), seed=rng.randint(0, 50))
         for total in range(1, 8):
             for cuts in itertools.product([0, 1], repeat=total - 1):
                 sizes, cur = [], 1
@@ -70,7 +70,7 @@ def cases(tier, rng):
     for st in _stimsets(rng, 25 if quick else 400):
         for pol in (rng.sample(qc.POLICIES, 3) if quick else qc.POLICIES):
             c = {'pol': pol, 'gs': rng.randint(1, len(st) + 1), 'stims': st, 'fs': rng.choice(FS),
-                 't0': rng.choice([0, 0, 5, 1234]), 'seed': rng.randint(0, 99)}
+                 't0': rng.choice([0, 0, 5, 1234, 3086.4, 7.77]), 'seed': rng.randint(0, 99)}
             B = _boundaries(c)
             pts = sorted({b + d for b in B for d in (-1, 0, 1) if b + d > 0})
             # requests that end exactly on / around every boundary
